@@ -32,6 +32,75 @@ func setupTeardownCallers(c *core.Ctx) []ssa.CallInstruction {
 	return out
 }
 
+// teardownBehind: the teardown a wrapper was built around — `wrap(teardown)` handing back a function that calls the
+// function it was given exactly once on every path (timing it, logging it) stands for that function. Anything else
+// is returned unchanged.
+func teardownBehind(v ssa.Value) ssa.Value {
+	call, ok := an.Strip(v).(*ssa.Call)
+	if !ok {
+		return v
+	}
+	h := an.Callee(call)
+	if h == nil || !core.InModule(h) || h.Blocks == nil || h.Signature.Results().Len() != 1 {
+		return v
+	}
+	for i, a := range call.Call.Args {
+		sig, isSig := a.Type().Underlying().(*types.Signature)
+		if !isSig || sig.Params().Len() != 0 || sig.Results().Len() != 0 || i >= len(h.Params) {
+			continue
+		}
+		prm := h.Params[i]
+		okAll := true
+		nRet := 0
+		for _, ret := range an.Returns(h) {
+			mc, isMC := an.Strip(ret.Results[0]).(*ssa.MakeClosure)
+			if !isMC {
+				okAll = false
+				continue
+			}
+			cl, _ := mc.Fn.(*ssa.Function)
+			if cl == nil {
+				okAll = false
+				continue
+			}
+			nRet++
+			isWrapped := func(in ssa.Instruction) an.Interval {
+				ci, isCall := in.(ssa.CallInstruction)
+				if !isCall || an.Callee(ci) != nil || ci.Common().IsInvoke() {
+					return an.Interval{}
+				}
+				cv := an.Strip(ci.Common().Value)
+				if ld, isLd := cv.(*ssa.UnOp); isLd {
+					cv = ld.X
+				}
+				if fv, isFV := cv.(*ssa.FreeVar); isFV {
+					b := an.FreeVarBinding(fv)
+					if al, isAl := b.(*ssa.Alloc); isAl {
+						if sts := an.StoresTo(al); len(sts) == 1 {
+							b = an.Strip(sts[0].Val)
+						}
+					}
+					if b == ssa.Value(prm) {
+						if _, isGo := in.(*ssa.Go); isGo {
+							return an.Interval{}
+						}
+						return an.Interval{Lo: 1, Hi: 1}
+					}
+				}
+				return an.Interval{}
+			}
+			tot, okT := an.Total(an.PathCount(cl, isWrapped), false)
+			if !okT || tot.Lo != 1 || tot.Hi != 1 {
+				okAll = false
+			}
+		}
+		if okAll && nRet > 0 {
+			return a
+		}
+	}
+	return v
+}
+
 // holdsTeardown: the func() field is the one the handle constructor's teardown is stored in (the second result of
 // the call that made the handle) — not an optional hook that happens to have the same shape.
 func holdsTeardown(c *core.Ctx, fld *types.Var) bool {
@@ -46,7 +115,7 @@ func holdsTeardown(c *core.Ctx, fld *types.Var) bool {
 				return
 			}
 			stores++
-			if ex, isEx := an.Strip(st.Val).(*ssa.Extract); isEx && ex.Index == 1 {
+			if ex, isEx := an.Strip(teardownBehind(st.Val)).(*ssa.Extract); isEx && ex.Index == 1 {
 				if call, isCall := ex.Tuple.(*ssa.Call); isCall && an.Callee(call) != nil && core.RelPkg(an.Callee(call)) == "pkg/f1/testing" {
 					fromCtor++
 				}
@@ -481,7 +550,7 @@ func handleWiring(c *core.Ctx, r *core.Report) {
 				continue
 			}
 			e0, ok0 := an.Strip(t).(*ssa.Extract)
-			e1, ok1 := an.Strip(td).(*ssa.Extract)
+			e1, ok1 := an.Strip(teardownBehind(td)).(*ssa.Extract)
 			okk := ok0 && ok1 && e0.Tuple == e1.Tuple && e0.Index == 0 && e1.Index == 1
 			r.Check(okk, core.FuncName(fn)+"#handle", an.Pos(c, ret), tName+" and "+tdName+" come from the same constructor call", "the handle's teardown ("+an.D().Of(td)+") does not belong to its T ("+an.D().Of(t)+"): cleanups registered on one handle are run (or not) by another")
 		}
